@@ -48,11 +48,15 @@ def rule_i1(F):
     if b is None:
         r.missing("runtime::Rt::declare_import")
         return r
-    if not any(mir.callee(t).endswith("::get_scope_of") for _, t in mir.calls(b)):
+    def looks_up(x):
+        """the body, or a closure written in it, calls get_scope_of"""
+        fam_ = [x] + [F.body(q) for q in F.paths() if q.startswith(x.path + "::{closure")]
+        return any(y is not None and y.mir and any(mir.callee(t2).endswith("::get_scope_of") for _, t2 in mir.calls(y)) for y in fam_)
+    if not looks_up(b):
         # the walk over the leading path segments moved into a helper of declare_import
         for _, t in mir.calls(b):
             hb = F.body(mir.callee(t)) if (mir.callee(t) or "").startswith("runtime::Rt::") else None
-            if hb is not None and hb.mir and any(mir.callee(t2).endswith("::get_scope_of") for _, t2 in mir.calls(hb)):
+            if hb is not None and hb.mir and looks_up(hb):
                 b = hb
                 break
     defs = mir.Defs(b)
@@ -299,7 +303,7 @@ def rule_i6(F):
         if not b.mir or "::tests::" in b.path or not any(x in b.path for x in ("::declare_", "Rt::")):
             continue
         fn = b.path
-        if hir.last(fn) == "declare_import" or "declare_import" in fn or fn in import_helpers:
+        if hir.last(fn) == "declare_import" or "declare_import" in fn or fn.split("::{closure")[0] in import_helpers:
             continue  # use-paths: rule I1
         defs = None
         n = 0
